@@ -29,6 +29,65 @@ for name, (mod, f) in OPTIONAL.items():
         ABSENT[name] = True
 
 
+def present_then_absent():
+    """each absent optional library is made importable once (a stand-in module that answers any attribute with a fresh exception
+    class), its classifier is called, and the stand-in is removed again: whatever the classifier remembered must not survive — with
+    the library absent it has to equal default_classifier"""
+    import types
+
+    class Stub(types.ModuleType):
+        def __getattr__(self, name):
+            if name.startswith("__"):
+                raise AttributeError(name)
+            k = type(name, (Exception,), {})
+            setattr(self, name, k)
+            return k
+
+    for name, (mod, f) in OPTIONAL.items():
+        if not ABSENT[name]:
+            continue
+        parts = mod.split(".")
+        names = [".".join(parts[:i + 1]) for i in range(len(parts))]
+        added = [n for n in names if n not in sys.modules]
+        stubs = {n: Stub(n) for n in added}
+        for n in added:
+            sys.modules[n] = stubs[n]
+        for n in added:                      # parent.child attribute links
+            if "." in n and n.rsplit(".", 1)[0] in stubs:
+                setattr(stubs[n.rsplit(".", 1)[0]], n.rsplit(".", 1)[1], stubs[n])
+        try:
+            for e in (Exception("x"), TimeoutError("t")):
+                try:
+                    f(e)
+                except BaseException:  # noqa: BLE001
+                    pass
+        finally:
+            for n in added:
+                sys.modules.pop(n, None)
+        importlib.invalidate_caches()
+        # the classes the classifier asked the stand-in for: with the library gone, their instances are ordinary exceptions
+        asked = [v for st in stubs.values() for k, v in vars(st).items() if isinstance(v, type) and issubclass(v, Exception)]
+        for k in asked:
+            e = k("x")
+            a, b = call(f, e), call(default_classifier, e)
+            if a != b and name not in STALE:
+                STALE[name] = f"stale-import:{k.__name__}:{a}-vs-default-{b}"
+
+
+STALE = {}
+
+
+def call(f, e):
+    try:
+        r = f(e)
+        return getattr(r, "name", "bad:" + repr(r)[:40])
+    except BaseException as x:  # noqa: BLE001
+        return "raised:" + type(x).__name__
+
+
+present_then_absent()
+
+
 class Plain:
     pass
 
@@ -77,21 +136,13 @@ def mk_exc(spec):
     return e
 
 
-def call(f, e):
-    try:
-        r = f(e)
-        return getattr(r, "name", "bad:" + repr(r)[:40])
-    except BaseException as x:  # noqa: BLE001
-        return "raised:" + type(x).__name__
-
-
 if __name__ == "__main__":
     out = []
     for spec in json.load(sys.stdin):
         e = mk_exc(spec)
         r = {"default": call(default_classifier, e), "strict": call(strict_classifier, e), "http": call(http_classifier, e),
              "sqlstate": call(sqlstate_classifier, e), "pyodbc": call(pyodbc_classifier, e),
-             "optional": {n: call(f, e) for n, (m, f) in OPTIONAL.items() if ABSENT[n]},
+             "optional": {n: STALE.get(n) or call(f, e) for n, (m, f) in OPTIONAL.items() if ABSENT[n]},
              "absent": sorted(n for n in ABSENT if ABSENT[n])}
         # asked again in the opposite order, every classifier must repeat its answer
         for name, f in (("pyodbc", pyodbc_classifier), ("sqlstate", sqlstate_classifier), ("http", http_classifier),
